@@ -135,6 +135,12 @@ func (p *C08) Generate(seed uint64, run int) *Case {
 		c.Labels = append(c.Labels, "huge-duration")
 	}
 	data := []byte(d.YAML(r.Intn(2)))
+	if r.Chance(1, 10) {
+		// the document framed as (part of) a YAML stream: a leading marker, an
+		// end marker, further documents behind it
+		data = yamlStream(r, data)
+		c.Labels = append(c.Labels, "yaml-stream")
+	}
 	if r.Chance(1, 6) {
 		n := 1 + r.Intn(2)
 		for j := 0; j < n; j++ {
@@ -332,5 +338,24 @@ func (p *C08) Assumptions() []string {
 	return []string{
 		"the strict reader encodes the property's own list (header, format, ntrks = --track = MTrk count, chunk lengths, VLQ <= 4 bytes, status/running status, data bytes < 128, one final end-of-track per track, note pairing on the merged stream, tempo/time/key signature only in the first chunk, standard lengths of those meta events); nothing else is judged",
 		"schedule and delivery variations are expected to be inert for this property",
+	}
+}
+
+// yamlStream frames one instances document as a YAML stream.
+func yamlStream(r *model.Rand, doc []byte) []byte {
+	other := "- chord:\n    degree: \"5\"\n    name: \"7\"\n  values:\n    - \"2\"\n"
+	switch r.Intn(6) {
+	case 0:
+		return append([]byte("---\n"), doc...)
+	case 1:
+		return append(append([]byte{}, doc...), []byte("...\n")...)
+	case 2:
+		return append(append([]byte{}, doc...), []byte("---\n"+other)...)
+	case 3:
+		return append(append([]byte("--- # first\n"), doc...), []byte("---\n"+other+"---\n"+other)...)
+	case 4:
+		return append(append([]byte{}, doc...), []byte("---\n")...)
+	default:
+		return append(append([]byte("%YAML 1.2\n---\n"), doc...), []byte("...\n---\n"+other+"...\n")...)
 	}
 }
